@@ -157,6 +157,9 @@ class PFold(Fold):
                 return self.ev(ks[0], env)
             if len(ks) >= 1 and P.strip(ks[0]).name in ("aelemfast", "aelemfast_lex"):
                 return self.ev_plain(P.strip(ks[0]), env)
+            fast = [x for x in P.walk(ks[0]) if x.name in ("aelemfast", "aelemfast_lex")] if len(ks) == 2 and P.strip(ks[1]).name == "ex-const" else []
+            if len(fast) == 1:
+                return self.ev_plain(fast[0], env)          # $ARGV[2]: constant index folded into the fetch
             if len(ks) >= 2:
                 arr = P.strip(ks[0])
                 an = padname(arr) if arr.name in ("padav", "ex-padav") else ("@" + (arr.arg or arr.name).lstrip("*@"))
@@ -284,6 +287,8 @@ class PFold(Fold):
             return val
         if tg[0] == "scalar":
             if not self.loop_stack and self.depth == 0 and re.search(r"@ARGV|call_|<\w", str(val)):
+                self.inputs = getattr(self, "inputs", {})
+                self.inputs[tg[1]] = val
                 val = S(tg[1])          # a script input (command line, file contents): stays a named atom
             env[tg[1]] = val
             return val
